@@ -277,3 +277,15 @@ class Rng:
         return bytes(out[:n])
     def chance(self, num, den):
         return self.below(den) < num
+
+
+EXPECTED_VARIANTS = ["sse:f0", "sse:f1", "sse:f2", "avx2:f0", "avx2:f1", "avx512:f0", "avx512:f1"]
+
+
+def missing_variants(k1_exe):
+    """Variants the host is known to reach but the rebuilt library no longer offers (the harness drops a
+    variant whose init fails, e.g. because a kernel change breaks the power-up self test: a check
+    that then runs on fewer variants would pass vacuously). Returns (missing list, table text)."""
+    p = run([k1_exe, "--list-variants"], env=lib_env(), timeout=300)
+    have = [t.split("=", 1)[1] for l in p.stdout.splitlines() if l.startswith("variant=") for t in l.split()[:1]]
+    return [v for v in EXPECTED_VARIANTS if v not in have], p.stdout + p.stderr[-2000:]
